@@ -6,7 +6,6 @@ func init() {
 	for _, id := range []string{"C20"} {
 		notApplicable[id] = "static check for this property is not implemented in this revision of /verif (planned clauses: DESIGN.md section 3); no claim is made"
 	}
-	notApplicable["C03"] = "finally-exactly-once depends on the run-time history of a per-activation handler list addressed by static nesting depths; every structural rule considered either restates today's mechanism (and would fire on a correct redesign) or is a mechanism-presence check the existing tests already pin. No sound static argument in reach bounds the handler-list history (DESIGN.md section 4)."
 
 	metas["C06"] = propMeta{
 		Text:      "Decides the structure that makes recovery possible: (recover-dom) the dispatch loop is entered only from a function with a dominating deferred closure that calls recover() under the recovery flag, and that function only from Run; (handler-guard) in the panic handler every call that can unwind to a script handler is dominated by sp <= len(stack)-1 and frameIndex <= len(frames) (interval analysis of the dominating comparisons: the unwinder indexes stack[sp]); (child-flag) a pooled child VM receives the parent's recovery flag on every path of acquire. Does not decide whether the recovery path can itself panic for some VM state, Go fatal errors, or panics in goroutines started by callbacks. 'other'.",
@@ -75,9 +74,9 @@ func init() {
 		DesignRef: "DESIGN.md section 3, C01",
 	}
 	metas["C02"] = propMeta{
-		Text:      "Claims one sentence of the property only: 'a function that calls itself in tail position returns exactly what ordinary recursion would return'. Decides, for the frame-reusing fast path of the compiled-call routine (located by role: the store that resets ip without claiming a frame): it is dominated by callee == current frame's function; the opcode after the call is compared with OpReturn only; the frame's error handlers are cleared; the loop that resets non-parameter locals lies on every path to it. Evaluation order, scoping, closures, argument binding, destructuring and loop control - the rest of C02 - are statements about what each program computes and are NOT decided. 'other'.",
+		Text:      "Claims single structural clauses of a few sentences of the property, nothing more. (tailcall) 'a function that calls itself in tail position returns exactly what ordinary recursion would return': the frame-reusing fast path of the compiled-call routine (located by role: the store that resets ip without claiming a frame) is dominated by callee == current frame's function, the opcode after the call is compared with OpReturn only, the frame's error handlers are cleared, the loop that resets non-parameter locals lies on every path to it. Declarations and closures: (define-fresh) := always compiles to OpDefineLocal; (locals-elements) an Eval session never overwrites a saved local's cell; (free-const) a captured constant stays constant; (blank-never-const) _ is never made a constant symbol; (catch-var-fresh) the catch clause binds a fresh variable. Try statements, as far as the shape of the code shows it: (try-end-pop) the closing instruction pops the handler on the nothing-pending path; (pending-err-per-handler) the parked error lives in a per-handler slot; (handler-active) a frame is handed to the handler switch only after hasActiveHandler succeeded for it; (counter-balance) the compiler's nesting counters are decremented on every successful path after being incremented. Evaluation order, argument binding, destructuring, loop control and what any given program computes are NOT decided. 'other'.",
 		Note:      trustedNote,
-		Technique: "static analysis: dominance and path conditions of one VM fast path on SSA",
+		Technique: "static analysis: dominance, guard and must-pass-through rules on SSA over the compiled-call fast path, the try/catch machinery of the VM and the compiler's definers",
 		DesignRef: "DESIGN.md section 3, C02",
 	}
 	metas["C11"] = propMeta{
